@@ -3,6 +3,7 @@ import LP.Driver.FSet
 import LP.Driver.Poly
 import LP.Driver.Interval
 import LP.Model.Eval
+import LP.Driver.Eval
 namespace LP.Driver
 open LP
 
@@ -65,5 +66,62 @@ def checkPI (op : String) (args res : List String) : Verdict :=
        else .disagree "answered false where the mirror answers true"
      | _, _ => .skip "bad")
   | _, _, _ => .skip s!"unknown pi op {op}"
+
+/-! ### value intervals with irrational algebraic end points (property-level oracle: no point may be lost) -/
+
+abbrev VIv := Val × Bool × Val × Bool
+
+/-- exact membership of a rational in a value interval; `none` = comparison out of fuel -/
+def vivMem (I : VIv) (x : Rat) : Option Bool :=
+  match Val.cmp I.1 (.rat x), Val.cmp (.rat x) I.2.2.1 with
+  | some c1, some c2 => some ((c1 < 0 || (c1 == 0 && !I.2.1)) && (c2 < 0 || (c2 == 0 && !I.2.2.2)))
+  | _, _ => none
+
+/-- rational approximations of an end point from below and from above (the value itself if rational) -/
+def valApprox (v : Val) : List Rat :=
+  match v with
+  | .int z => [(z : Rat)]
+  | .dy q => [q]
+  | .rat q => [q]
+  | .alg r => [r.l, r.u]
+  | _ => []
+
+/-- rational sample points of the interval: closed rational ends, points just inside each end, the middle, zero -/
+def vivSamples (I : VIv) : List Rat :=
+  let lo := valApprox I.1
+  let hi := valApprox I.2.2.1
+  let cands : List Rat := lo ++ hi ++ [0] ++
+    (lo.flatMap (fun a => hi.flatMap (fun b => [(a + b) / 2, a + (b - a) / 1024, b - (b - a) / 1024, a + (b - a) / 3])))
+  cands.filter (fun x => vivMem I x == some true)
+
+def vivWf (I : VIv) : Bool :=
+  match Val.cmp I.1 I.2.2.1 with
+  | some c => c < 0 || (c == 0 && !I.2.1 && !I.2.2.2)
+  | none => true
+
+def checkVIA (op : String) (args res : List String) : Verdict :=
+  let lost (pts : List (String × Rat)) (R : VIv) : Option String :=
+    pts.findSome? (fun p => match vivMem R p.2 with | some false => some p.1 | _ => none)
+  match op, args, res with
+  | "add", [a, b], [r] | "mul", [a, b], [r] =>
+    (match pVInt? a, pVInt? b, pVInt? r with
+     | some A, some B, some R =>
+       if !vivWf R then .viol s!"via-{op}" s!"ill-formed result {r}" else
+       let pts := (vivSamples A).flatMap (fun x => (vivSamples B).map (fun y =>
+         (s!"{showRat x}{if op = "add" then "+" else "*"}{showRat y}", if op = "add" then x + y else x * y)))
+       match lost pts R with
+       | some w => .viol s!"via-{op}" s!"lost point {w}: not in the returned interval {r}"
+       | none => .ok s!"via/{op}/{if pts.isEmpty then "nosample" else "sampled"}"
+     | _, _, _ => .skip "bad")
+  | "pow", [a, n], [r] =>
+    (match pVInt? a, pNat? n, pVInt? r with
+     | some A, some n, some R =>
+       if !vivWf R then .viol "via-pow" s!"ill-formed result {r}" else
+       let pts := (vivSamples A).map (fun x => (s!"{showRat x}^{n}", x ^ n))
+       match lost pts R with
+       | some w => .viol "via-pow" s!"lost point {w}: not in the returned interval {r}"
+       | none => .ok s!"via/pow/{n}"
+     | _, _, _ => .skip "bad")
+  | _, _, _ => .skip s!"unknown via op {op}"
 
 end LP.Driver
